@@ -357,6 +357,7 @@ func c19Stress(run *vf.Run) {
 	c19ConcurrentWriter(run, dir)
 	c19Formats(run, dir)
 	c19FormatStable(run)
+	c19ConcurrentIDs(run)
 	nasty := []string{"plain", "quo\"te", "new\nline", "--abcdefghij-Z--", "back\\slash", "tab\there", "unié\xff", "{\"json\":1}"}
 	G := vf.Pick(run, 8, 16)
 	N := vf.Pick(run, 150, 1500)
@@ -693,4 +694,95 @@ func cut(s string, n int) string {
 		return s[:n] + "..."
 	}
 	return s
+}
+
+// c19ConcurrentIDs: law RecordPerTransaction for the concurrent writer, over transaction ids as a connector may
+// hand them over (NewTransactionWithID with a request-id header of the peer): every id built from the alphabet
+// {x, /, .., ., space, backslash, NUL-free bytes} must yield exactly one record file carrying the id, inside the
+// configured storage directory, and an index entry naming that file; nothing may be created outside the directory.
+func c19ConcurrentIDs(run *vf.Run) {
+	atoms := []string{"x", "/", "..", ".", " ", "\\", "%2f", "é"}
+	var ids []string
+	for _, a := range atoms {
+		for _, b := range atoms {
+			ids = append(ids, "t"+a+b+"z")
+			for _, c := range []string{"/", "..", "x"} {
+				ids = append(ids, a+b+c)
+			}
+		}
+	}
+	ids = append(ids, "../../../../../../escape", "a/b/c/d", "/abs", "..")
+	base, err := os.MkdirTemp("", "verif-c19ids-")
+	if err != nil {
+		run.Inconclusive("c19ConcurrentIDs: %v", err)
+		return
+	}
+	defer os.RemoveAll(base)
+	reported := map[string]bool{}
+	for k, id := range ids {
+		outer := filepath.Join(base, fmt.Sprintf("o%d", k))
+		store := filepath.Join(outer, "l1", "l2", "l3", "l4", "store")
+		_ = os.MkdirAll(store, 0o755)
+		index := filepath.Join(outer, "index.log")
+		text := fmt.Sprintf("SecRuleEngine On\nSecAuditEngine On\nSecAuditLogParts ABHZ\nSecAuditLogType Concurrent\nSecAuditLogFormat json\nSecAuditLog %s\nSecAuditLogStorageDir %s\nSecAction \"id:1,phase:1,pass,log,auditlog,msg:'m'\"\n", index, store)
+		w, err := coraza.NewWAF(coraza.NewWAFConfig().WithDirectives(text))
+		if err != nil {
+			run.Inconclusive("c19ConcurrentIDs: configuration rejected: %v", err)
+			return
+		}
+		marker := fmt.Sprintf("/marker-%d", k)
+		func() {
+			defer func() { _ = recover() }()
+			tx := w.NewTransactionWithID(id)
+			tx.ProcessURI(marker, "GET", "HTTP/1.1")
+			tx.ProcessRequestHeaders()
+			tx.ProcessLogging()
+			_ = tx.Close()
+		}()
+		closeAny(w)
+		inside, outside := 0, 0
+		var where []string
+		_ = filepath.Walk(outer, func(p string, info os.FileInfo, err error) error {
+			if err != nil || info.IsDir() || p == index {
+				return nil
+			}
+			b, _ := os.ReadFile(p)
+			if !strings.Contains(string(b), marker) {
+				return nil
+			}
+			if strings.HasPrefix(p, store+string(os.PathSeparator)) {
+				inside++
+			} else {
+				outside++
+			}
+			where = append(where, strings.TrimPrefix(p, outer))
+			return nil
+		})
+		run.Eval("concid-" + id)
+		kind := ""
+		switch {
+		case outside > 0:
+			kind = "record-outside-storage-dir"
+		case inside == 0:
+			kind = "record-lost"
+		case inside > 1:
+			kind = "record-duplicated"
+		}
+		if kind == "" {
+			continue
+		}
+		cls := "plain"
+		if strings.Contains(id, "..") {
+			cls = "dotdot"
+		} else if strings.Contains(id, "/") {
+			cls = "slash"
+		}
+		sig := "audit:concurrent-" + kind + "|id:" + cls
+		if reported[sig] {
+			continue
+		}
+		reported[sig] = true
+		run.Violate(vf.Violation{Signature: sig, What: fmt.Sprintf("concurrent audit writer, transaction id %q: %s (record files carrying the transaction: %v; storage directory %s)", id, kind, where, strings.TrimPrefix(store, outer)),
+			Replay: map[string]any{"family": "audit-concurrent-id", "id": id, "files": where}})
+	}
 }
